@@ -182,11 +182,18 @@ def faults(doc):
                         else:
                             d['Modules'][name]['rectangles'][ri][comp] = bad
                         yield 'non-positive-rectangle-size', f'{name}.rect{ri}[{comp}]={bad}', d
+                # both sizes non-positive at once (the product of two negative sizes is a positive area)
+                cur = rl if single else rl[ri]
+                for tag, (bw, bh) in (('neg', (-cur[2], -cur[3])), ('neg2', (-2, -4)), ('zero', (0, 0)), ('mixed', (-cur[2], 0))):
+                    d = copy.deepcopy(doc)
+                    tgt = d['Modules'][name]['rectangles'] if single else d['Modules'][name]['rectangles'][ri]
+                    tgt[2], tgt[3] = bw, bh
+                    yield 'non-positive-rectangle-size', f'{name}.rect{ri}[both]={tag}', d
 
 
 # the same documents in other units: x 1e-4 (a design written in metres instead of 0.1 mm) and x 100000.3 (database units,
 # decimal): tolerances that are not proportional to the scale of the design accept overlaps / reject abutting rectangles
-SCALES = {'small': 1e-4, 'big': 100000.3}
+SCALES = {'small': 1e-4, 'big': 100000.3, 'tiny': 1e-7}
 GEOMETRIC = ('hard-overlapping-rectangles', 'non-positive-rectangle-size')
 
 
@@ -230,14 +237,31 @@ def check_case(case, res):
                 pass
         res.case('fault:' + cls)
         return
-    for via in ('tree', 'text'):
+    tree = copy.deepcopy(doc)
+    for via in ('tree', 'text', 'tree-again', 'text-alias'):
         reset_frame_state()
+        src = doc
+        if via == 'text-alias':
+            # a document in which the first net is written once and referred to a second time through a YAML alias
+            # (the parser then sees the SAME list object twice); it means the document with that net listed twice
+            if not doc.get('Nets'):
+                continue
+            shared = copy.deepcopy(doc)
+            shared['Nets'].append(shared['Nets'][0])
+            text = to_text(shared)
+            assert '*id' in text, text
+            src = copy.deepcopy(doc)
+            src['Nets'].append(copy.deepcopy(src['Nets'][0]))
         try:
-            n = Netlist(copy.deepcopy(doc) if via == 'tree' else to_text(doc))
+            # 'tree-again': the caller's tree is loaded a second time; loading must not have consumed or altered it
+            n = Netlist(tree if via.startswith('tree') else text if via == 'text-alias' else to_text(doc))
         except Exception as e:  # noqa
             res.violation('rejects-well-formed', case, dict(attrs, via=via), 'loads', f'{type(e).__name__}: {e}')
             continue
-        check_loaded(case, res, doc, n, via, attrs)
+        if via.startswith('tree') and tree != doc:
+            res.violation('input-altered', case, dict(attrs, via=via), doc, tree)
+            tree = copy.deepcopy(doc)
+        check_loaded(case, res, src, n, via, attrs)
     res.case('well-formed', nontrivial=bool(nets) or any('rectangles' in nd.VARIANTS[i][1] for i in vt))
 
 
